@@ -24,3 +24,13 @@
     .assert ram($10) == 0
     brk
 }
+.test "mixed_operands" {
+    lda #1
+    .assert cpu.a + "x"
+    brk
+}
+.test "mixed_operands_message" {
+    ldx #2
+    .assert "x" == cpu.x "number against string"
+    brk
+}
